@@ -113,7 +113,7 @@ RESULTS3 = {
  "C12-r3-3": ("C12", "after TLS underneath the scripted server and resets of the GET half only were added"),
  "C12-r3-4": ("C12", "after media on every set-up channel, back channels included, was added; client panic"),
  "C13-r3-1": ("C12", "C12 after busy odd (RTCP) ports were added; C13 has no busy ports"),
- "C13-r3-2": ("", "MISSED: needs two UDP-multicast readers of one stream; the simulation has one address with a real interface (loopback) and so one multicast reader per run"),
+ "C13-r3-2": ("C13", "caught since C13 runs a second multicast reader and sends the readers' receiver reports to the group after they have left; missed at first"),
  "C13-r3-3": ("C12", "C12 (tunnelled publisher whose server stops reading): same slip as C12-r2-1 on the other half"),
  "C13-r3-4": ("C16", "C16 after the slow-site schedules were added (a caller held between the closed check and Wait while Close runs to its end)"),
  "C14-r3-1": ("C14", ""), "C14-r3-2": ("C14", ""), "C14-r3-3": ("C14", ""),
